@@ -1,4 +1,5 @@
 // Codec operations on the eleven blob types plus zlib_uncompress.
+#include <pthread.h>
 #include <atomic>
 #include <thread>
 #include <functional>
@@ -558,6 +559,28 @@ bool dispatch_codec(State& st, const std::string& op, const json& a, json& ret)
             });
         for (auto& th : threads) th.join();
         ret = json(outs);
+        return true;
+    }
+    if (op == "decode_many" && a.contains("stack_kb") && !a.value("_on_thread", false))
+    {
+        // the same op on a thread whose stack is as small as other platforms give their threads (musl: 128 KiB, macOS secondary
+        // threads: 512 KiB): a decoder that keeps a large buffer on the stack overflows there
+        struct Arg { State* st; const std::string* op; json a; json* ret; std::exception_ptr err; } arg{&st, &op, a, &ret, nullptr};
+        arg.a["_on_thread"] = true;
+        pthread_attr_t attr;
+        pthread_attr_init(&attr);
+        pthread_attr_setstacksize(&attr, (size_t)a.at("stack_kb").get<long long>() * 1024);
+        pthread_t th;
+        auto body = [](void* p) -> void* {
+            auto* g = static_cast<Arg*>(p);
+            try { dispatch_codec(*g->st, *g->op, g->a, *g->ret); }
+            catch (...) { g->err = std::current_exception(); }
+            return nullptr;
+        };
+        if (pthread_create(&th, &attr, body, &arg) != 0) throw harness_error("cannot create the small-stack thread");
+        pthread_join(th, nullptr);
+        pthread_attr_destroy(&attr);
+        if (arg.err) std::rethrow_exception(arg.err);
         return true;
     }
     if (op == "decode_many")
